@@ -7,6 +7,7 @@ import re
 from engine.rulekit import og
 from engine.rulekit import scans
 from rules import templates as T
+from rules import anchors as A
 
 SOAP11 = "http://schemas.xmlsoap.org/soap/envelope/"
 RE_YASERDE = re.compile(r"#\[yaserde\((.*)\)\]\s*$", re.S)
@@ -278,7 +279,7 @@ def run(ck, F):
             n_groups += 1
             gname = _gname(g)
             short = fn.rsplit("::", 1)[-1]
-            is_env = "write_soap_operation" in fn
+            is_env = fn == A.envelope_emitter(X)
             ns_keys = []
             for ev in attrs:
                 a = parse_attr(ev)
@@ -378,7 +379,9 @@ def prefix_covered(pnf, ns_keys, g, is_env):
 
 
 def rule_carrier(ck, X):
-    evs = [e for e in X.events.get("model::structures::writer::write_type_alias", []) if e.kind == "emit"]
+    # the emitter of the wrapper struct of a simple type: the function whose own text has the `pub value:` member
+    carriers = [fn for fn, es in X.events.items() if any(e.kind == "emit" and e.skeleton().strip().startswith("pub value:") for e in es)]
+    evs = [e for fn in carriers for e in X.events.get(fn, []) if e.kind == "emit"]
     CE = getattr(X, "CE", None) or og.CallExpander(X.F)
     attrs = [e for e in evs if e.skeleton().strip().startswith("#[yaserde(") and ("text" in e.skeleton() or "flatten" in e.skeleton())]
     members = [e for e in evs if e.skeleton().strip().startswith("pub value:")]
